@@ -18,12 +18,12 @@ CLAIMED = {
 }
 
 CLAIMED.update({
-    "C02": ("who-may-call (VTA call graph) + guard dominance with invalidation + path-sensitive all-elements-flag search + forward provenance over go/ssa + must-pass-through (raw reference pass) + runtime/scheduler agreement on merges without fork node + element-wise reference enumeration of the disabling conditions (FindRefs on every entry) + cache-invalidation pairing (a remembered scan position of the chunk list is cleared wherever the list is replaced) + reference identity (a comparison of two references' output paths is accompanied by one of their call ids) + every verdict of the disable classifier false after the reference arm (arm followed to the loop header, phis resolved)",
+    "C02": ("who-may-call (VTA call graph) + guard dominance with invalidation + path-sensitive all-elements-flag search + forward provenance over go/ssa + must-pass-through (raw reference pass) + runtime/scheduler agreement on merges without fork node + element-wise reference enumeration of the disabling conditions (FindRefs on every entry) + cache-invalidation pairing (a remembered scan position of the chunk list is cleared wherever the list is replaced) + reference identity (a comparison of two references' output paths is accompanied by one of their call ids) + every verdict of the disable classifier false after the reference arm (arm followed to the loop header, phis resolved) + order comparison of attempt ids (O9 = J8/R3c)",
             "Structural necessary conditions of the ordering decided for all programs and schedules at once, because they are facts about the scheduler's code: exact caller sets of the submission chain, "
             "phase guards in stepStage, the all-chunks-complete flag, the waiting rule of Node.getState, dependency sources (inputs, disabled condition, return bindings, fork roots) flowing into the prenode/postnode sets, preflight prenodes incl. recursion into sub-pipelines.",
             "Not decided: that FindRefs returns every reference (value-level recursion), state derivation from real files, job manager internals. Trusts go/ssa and the VTA call graph.",
             "DESIGN.md §4 C02"),
-    "C03": ("guard dominance + must-pass-through + who-may-call over go/ssa; disjunctive at-most-once rule + may-alias fix-point over package syntax (shared Disable list never extended in place) + copy-on-write discipline of shared fork-id parts (pointer provenance: caller's part joined with a private copy, guard compares len(node.forks) with Fork.index, followed into helpers) + must-pass-through (zero-length ranges examined before any enabled verdict of Fork.disabled) + sibling agreement of the chunk-directory width at every creator of chunk objects + no store through a shared fork-id part parameter in the static enumeration + the arm for a narrowed null returns the narrowed value (no job for a null element) + fork count derives from len of a decoded value only + private copy of a shared fork-id part whenever the node has several forks + length guard on the constant index into the static fork list + Type stored on the split built for partly disabled outputs + isAlwaysDisabled consulted on every path of the stage resolver",
+    "C03": ("guard dominance + must-pass-through + who-may-call over go/ssa; disjunctive at-most-once rule + may-alias fix-point over package syntax (shared Disable list never extended in place) + copy-on-write discipline of shared fork-id parts (pointer provenance: caller's part joined with a private copy, guard compares len(node.forks) with Fork.index, followed into helpers) + must-pass-through (zero-length ranges examined before any enabled verdict of Fork.disabled) + sibling agreement of the chunk-directory width at every creator of chunk objects + no store through a shared fork-id part parameter in the static enumeration + the arm for a narrowed null returns the narrowed value (no job for a null element) + fork count derives from len of a decoded value only + private copy of a shared fork-id part whenever the node has several forks + length guard on the constant index into the static fork list + Type stored on the split built for partly disabled outputs + isAlwaysDisabled consulted on every path of the stage resolver + guarded-comparison shape (X15: an ArrayLength() result compared with 0 behind len(Keys()) == 0 is an order comparison)",
             "Structural necessary conditions: at-most-once submission (flag test-and-set OR synchronous _jobinfo record before execJob), disabled test before any submission/completion, "
             "empty/null mapped collections reach writeDisable, zero-length range reports disabled, skip() only for preflights under SkipPreflight.",
             "Not decided: one fork per element/key (run-time counts), liveness (no job skipped). The at-most-once rule is a disjunction on purpose: removing one of the two redundant mechanisms keeps behaviour and must not alarm.",
@@ -126,7 +126,7 @@ CLAIMED.update({
 })
 
 CLAIMED.update({
-    "C13": ("write-site classification of the JSON buffer (constant / json.RawMessage by type / encoder result) with error-path exemption decided from the returns reachable after the write + must-pass-through (a value is written on every path that can return nil; every iteration of a separator-writing loop writes its element) + backward provenance of rename/symlink destinations + all-members rule on the duplicate out-name set of StructType.compile + leaf agreement between a link read and the directory its relative target is joined with + stat of the destination before a missing source is recorded as null + guard dominance of IsLegalUnixFilename over map keys joined into paths + every-iteration key collection + buffer-write provenance in the symlink arm (destination, not outs/ name) + element type keeps remaining dimensions + rewritten element (not the input) recorded after processStructOuts (thin claim) (strconv.Quote is not a JSON encoder) + monotone update of the struct's file kind (store dominated by a read of the current value) + every exit of moveOutFile (error exits too) has written into the buffer",
+    "C13": ("write-site classification of the JSON buffer (constant / json.RawMessage by type / encoder result) with error-path exemption decided from the returns reachable after the write + must-pass-through (a value is written on every path that can return nil; every iteration of a separator-writing loop writes its element) + backward provenance of rename/symlink destinations + all-members rule on the duplicate out-name set of StructType.compile + leaf agreement between a link read and the directory its relative target is joined with + stat of the destination before a missing source is recorded as null + guard dominance of IsLegalUnixFilename over map keys joined into paths + every-iteration key collection + buffer-write provenance in the symlink arm (destination, not outs/ name) + element type keeps remaining dimensions + rewritten element (not the input) recorded after processStructOuts (thin claim) (strconv.Quote is not a JSON encoder) + monotone update of the struct's file kind (store dominated by a read of the current value) + every exit of moveOutFile (error exits too) has written into the buffer + constant-comparison inventory of the file-name gate (M16: IsLegalUnixFilename tests the name against the reserved names)",
             "Five structural necessary conditions: everything written into the rebuilt top-level _outs is JSON by construction (keys and moved paths go through json.Marshal; raw strings only on paths that end in a non-nil error); "
             "every path through a writer that can succeed has written a value; no iteration of a separator-writing loop skips its element; files are moved/linked to the path built from the member's GetOutFilename(); "
             "the compiler's duplicate out-name rejection looks up and records every member with a non-empty out filename, and the struct synthesised from each callable's outputs goes through it.",
